@@ -347,8 +347,9 @@ pub fn kcore_decomposition(store: &LpgStore) -> KCoreResult {
         let v = *buckets[min_deg].iter().next().unwrap();
         buckets[min_deg].remove(&v);
         removed[v] = true;
-        core[v] = min_deg;
+        // The core number never decreases along the peeling order
         max_core_val = max_core_val.max(min_deg);
+        core[v] = max_core_val;
 
         // Update degrees of neighbors
         for &u in &adj[v] {
